@@ -626,12 +626,14 @@ const probeScript = `(function(){
 
 // yield* inside try/catch with a failing delegate, then further resumes in later API calls (next / return / throw must
 // not be routed to the dead delegate).  The expected strings follow from the specification (and agree with node).
-const delegSetup = `var DOUT=[]; function* dinner(){ yield 1; throw 9 } function* douter(){ try { yield* dinner() } catch(e) { DOUT.push("c"+e) } yield 2; yield 3 }
+const delegSetup = `var DOUT=[], DCALLS=[];
+function dmk(){ var n=0; var it={ next:function(v){ DCALLS.push("n"+n); n++; if(n==2) throw 9; return {value:n,done:false} }, return:function(v){ DCALLS.push("r"); return {value:v,done:true} }, throw:function(e){ DCALLS.push("t"); throw e } }; it[Symbol.iterator]=function(){return this}; return it }
+function* douter(){ try { yield* dmk() } catch(e) { DOUT.push("c"+e) } yield 2; yield 3 }
 var GD = douter(), GD2 = douter(), GD3 = douter(); DOUT.push(GD.next().value); DOUT.push(GD.next().value); GD2.next(); GD2.next(); GD3.next(); GD3.next(); DOUT.join()`
 const delegLater = `(function(){ var r = GD.next(); var b = r.value + ":" + r.done; var r2 = GD.next(); b += "," + r2.value + ":" + r2.done;
 var r3 = GD2.return(7); b += "|" + r3.value + ":" + r3.done; r3 = GD2.next(); b += "," + r3.value + ":" + r3.done;
-try { GD3.throw(5); b += "|nothrow" } catch (e) { b += "|t" + e } r3 = GD3.next(); b += "," + r3.value + ":" + r3.done; return b })()`
-const delegWant = "1,c9,2,c9,c9 / 3:false,undefined:true|7:true,undefined:true|t5,undefined:true"
+try { GD3.throw(5); b += "|nothrow" } catch (e) { b += "|t" + e } r3 = GD3.next(); b += "," + r3.value + ":" + r3.done; return b + " # " + DCALLS.join() })()`
+const delegWant = "1,c9,2,c9,c9 / 3:false,undefined:true|7:true,undefined:true|t5,undefined:true # n0,n1,n0,n1,n0,n1"
 
 func delegate(rt *goja.Runtime) string {
 	res := ""
